@@ -5,6 +5,7 @@
 -/
 import NibiruModel.StateDB
 import NibiruProofs.SDBRevert
+import NibiruProofs.SDBCommit
 namespace Nibiru.SDB
 
 /-! ### counterexamples (the property fails for the code as it is) -/
@@ -127,5 +128,40 @@ theorem C04_frame_revert_restores_partial {A : List Nat} (s : S) (hc : Cached A 
     (ws : List WOp) (hw : ∀ w ∈ ws, ∀ a, w.acct = some a → a ∈ A) :
     ∃ s3, revertToSnapshot (applyAll (snapshot s).1 ws) (snapshot s).2 = some s3 ∧ Eqv A s3 s :=
   snapshot_revert_restores s hc hrev ws hw
+
+/-- **C04 (partial: transactions without a precompile call) — the committed state is the final EVM view.** Start from any
+    well-formed StateDB without a precompile cache context (e.g. a fresh one over any store), apply ANY sequence of interpreter
+    writes, and `Commit`: for every live account the sequence dirtied, the store then holds exactly what the EVM saw at the end
+    (nonce, code hash, balance in whole unibi, the current value of every slot); accounts no journal entry dirtied are untouched
+    (NibiruProofs/SDBCommit.lean, for stores / objects / dirties maps of any size). `C04_counterexample_lost_write` shows that the
+    slot part fails once a precompile flush happened in a reverted frame. -/
+theorem C04_commit_persists_final_view_partial (s0 : S) (h0 : WF s0) (ws : List WOp) (a : Nat) (o : Obj)
+    (ho : AList.find? (applyAll s0 ws).objs a = some o) (hd : a ∈ (applyAll s0 ws).dirties.map (·.1)) (hs : o.suicided = false) :
+    (commit (applyAll s0 ws)).txStore.acct a =
+        some { nonce := o.nonce, codeHash := o.codeHash, balance := Int.tdiv o.balance weiPerUnibi } ∧
+    ∀ k, (commit (applyAll s0 ws)).txStore.slot a k = objState (applyAll s0 ws) a o k :=
+  commit_persists_view _ (WF_applyAll ws s0 h0).1 a o ho hd hs
+
+theorem C04_commit_leaves_clean_accounts_partial (s0 : S) (h0 : WF s0) (ws : List WOp) (a : Nat)
+    (hd : a ∉ (applyAll s0 ws).dirties.map (·.1)) :
+    (commit (applyAll s0 ws)).txStore.acct a = s0.txStore.acct a ∧
+    ∀ k, (commit (applyAll s0 ws)).txStore.slot a k = s0.txStore.slot a k := by
+  obtain ⟨h1, h2⟩ := WF_applyAll ws s0 h0
+  have := commit_frame _ h1.1 a hd
+  rw [h2] at this
+  exact this
+
+theorem C04_commit_deletes_selfdestructed_partial (s0 : S) (h0 : WF s0) (ws : List WOp) (a : Nat) (o : Obj)
+    (ho : AList.find? (applyAll s0 ws).objs a = some o) (hd : a ∈ (applyAll s0 ws).dirties.map (·.1)) (hs : o.suicided = true) :
+    (commit (applyAll s0 ws)).txStore.acct a = none :=
+  (commit_deletes_suicided _ (WF_applyAll ws s0 h0).1.1 a o ho hd hs).1
+
+/-- the hypotheses are met by a concrete non-trivial history: over `cex0`'s store, `SetState(1, 0 := 7)`, `AddBalance(1, 2 unibi)`,
+    `SetNonce(1, 2)`: account 1 is cached, dirty and alive, and the committed store shows nonce 2, balance 7, slot 0 = 7 -/
+example :
+    let s := applyAll cex0 [.setState 1 0 7, .addBalance 1 2000000000000, .setNonce 1 2]
+    WF cex0 ∧ (∃ o, AList.find? s.objs 1 = some o ∧ o.suicided = false) ∧ 1 ∈ s.dirties.map (·.1) ∧
+      (commit s).txStore.acct 1 = some { nonce := 2, codeHash := 7, balance := 7 } ∧ (commit s).txStore.slot 1 0 = 7 := by
+  refine ⟨WF_fresh _, ?_, ?_, ?_, ?_⟩ <;> decide
 
 end Nibiru.SDB
